@@ -265,7 +265,7 @@ func init() {
 	}
 
 	suites["C16-history"] = func() result {
-		r := result{Name: "C16-history", Bound: "real SearchHistory on 400 seeded random operation sequences (AddEntry with repeats, Save / Load through files including files with equal, zero and decreasing timestamps, more entries than max_size, odd max_size; Clear) with capacities 1..12: entries against a model list, GetRecentQueries / GetTopQueries / GetStats against recomputation"}
+		r := result{Name: "C16-history", Bound: "real SearchHistory on 400 seeded random operation sequences (AddEntry with repeats, Save / Load through files including files with equal, zero and decreasing timestamps, more entries than max_size, odd max_size; Clear) with capacities 1..40 and 16 distinct queries: entries against a model list, GetRecentQueries / GetTopQueries / GetStats against recomputation"}
 		rng := rand.New(rand.NewSource(16))
 		var bad []string
 		fail := func(f string, a ...interface{}) {
@@ -279,12 +279,16 @@ func init() {
 			return r
 		}
 		defer os.RemoveAll(root)
-		qs := []string{"git status", "ls", "docker ps", "tar", "find files", "grep text", "q7", "q8"}
+		qs := []string{"git status", "ls", "docker ps", "tar", "find files", "grep text", "q7", "q8", "q9", "q10", "q11", "q12", "q13", "q14", "q15", "q16"}
 		for it := 0; it < 400*scale; it++ {
 			capN := 1 + rng.Intn(12)
+			if it%4 == 3 {
+				capN = 13 + rng.Intn(28) // room for more than ten distinct queries
+			}
 			path := filepath.Join(root, fmt.Sprintf("h%d.json", it))
 			h := history.NewSearchHistory(path, capN)
 			var model []string // queries, oldest first
+			var modelN []int   // the result count recorded with each entry
 			check := func(when string) {
 				if len(h.Entries) != len(model) || len(h.Entries) > h.MaxSize {
 					fail("%s: %d entries (max %d), model has %d", when, len(h.Entries), h.MaxSize, len(model))
@@ -293,6 +297,10 @@ func init() {
 				for i := range model {
 					if h.Entries[i].Query != model[i] {
 						fail("%s: entry %d is %q, expected %q", when, i, h.Entries[i].Query, model[i])
+						return
+					}
+					if len(modelN) == len(model) && h.Entries[i].ResultsCount != modelN[i] {
+						fail("%s: entry %d (%q) carries results count %d, the search recorded %d", when, i, model[i], h.Entries[i].ResultsCount, modelN[i])
 						return
 					}
 				}
@@ -397,6 +405,7 @@ func init() {
 						fq = fq[len(fq)-eff:]
 					}
 					model = fq
+					modelN = make([]int, len(model))
 					if h.MaxSize != eff {
 						fail("after loading max_size %d the capacity is %d, expected %d", ms, h.MaxSize, eff)
 					}
@@ -404,7 +413,7 @@ func init() {
 				case 2:
 					if rng.Intn(4) == 0 {
 						h.Clear()
-						model = nil
+						model, modelN = nil, nil
 						check("after Clear")
 					}
 				default:
@@ -412,12 +421,16 @@ func init() {
 					if len(model) > 0 && rng.Intn(4) == 0 {
 						q = model[len(model)-1]
 					}
-					h.AddEntry(q, rng.Intn(5), "", time.Millisecond)
+					nres := rng.Intn(50)
+					h.AddEntry(q, nres, "", time.Millisecond)
 					if len(model) > 0 && model[len(model)-1] == q {
 						// repeated query: the last entry is updated
+						modelN[len(modelN)-1] = nres
 					} else {
 						model = append(model, q)
+						modelN = append(modelN, nres)
 						if len(model) > h.MaxSize {
+							modelN = modelN[len(model)-h.MaxSize:]
 							model = model[len(model)-h.MaxSize:]
 						}
 					}
